@@ -487,7 +487,7 @@ LevelCmds(lvl) == IF lvl.tail.kind = "cmd" THEN RangeOf(lvl.tail.cmds) ELSE {}
 MayOffer(s, p) ==
   LET lvls == {s.frames[k].lvl : k \in DOMAIN s.frames} IN
   \* after `--` everything typed is data: no name, no subcommand and no `--` is a candidate any more
-  IF s.posOnly THEN {} ELSE
+  IF s.posOnly THEN {"--"} ELSE
   UNION {{Pref(l.named[k]) : k \in {k \in DOMAIN l.named : ~l.named[k].hidden /\ NameMatches(l.named[k], p)}} : l \in lvls}
   \cup UNION {{c.names[1] : c \in {c \in LevelCmds(l) : CmdMatches(c, p)}} : l \in lvls}
   \cup (IF s.pending # "" THEN RangeOf(ItemById(Cur(s).lvl, s.pending).completer) ELSE {})
